@@ -57,6 +57,9 @@ func execRel(r *RNG, c *Case) {
 		b = runFastaRoute(c, c.Get("relkind"))
 	case "legacy", "unwrap-toma":
 		a, b = execRelSam(c)
+	case "c12":
+		execC12(c)
+		return
 	case "fourway":
 		execFourWay(c)
 		return
